@@ -27,6 +27,7 @@ import CBV.Lemmas.C04Hist
 import CBV.Lemmas.C04Prov
 import CBV.Lemmas.C04Total
 import CBV.Lemmas.C04ProvM
+import CBV.Lemmas.C04DescF
 
 namespace CBV.Prop
 open CBV.C03 (Vals Q Oracle Tol calculate firstCell lastCell TOL absR)
@@ -452,6 +453,59 @@ theorem T_C04_never_invented (inp : Inp) (st : St) (h : run inp = .ok st) (w : N
   · rw [(flipN_count k _).1]; exact hn
   · rw [(flipN_count k _).2]; exact hr
 
+/-! ### round 6g: the inversion parity of a copied grading, for coherently orientable inputs -/
+
+/-- `T_C04_never_invented` with the parity fixed by `T_C04_parity`: when the block directions are oriented coherently
+    (`o`) and the ids of the user's chops name the chopped direction (`src`), every section of every wire is a user chop `c0`
+    of a user-chopped direction `y`, evaluated on a wire `w0` of the same geometric edge with the inversion parity
+    `o (w0 / 4) != o y` — inverted exactly when the direction that evaluated it is oriented against the direction the user
+    chopped — and then read from the other end `k` times on its way to `w` -/
+theorem T_C04_never_invented_oriented (inp : Inp) (st : St) (h : run inp = .ok st) (o : Nat → Bool) (src : Nat → Nat)
+    (hc : WireCoh inp o) (hs : Src inp src) (w : Nat) :
+    ∀ d ∈ specOf st w, ∃ y, userChopped inp y = true ∧ ∃ c0 ∈ inp.chops y,
+      d.count = c0.count ∧ d.ratio = c0.ratio ∧
+      ∃ (w0 : Nat) (inv : Bool) (k : Nat), SameEdge inp w w0 ∧
+        d = flipN k (⟨c0.ratio, c0.count, inp.ev c0.id inv w0⟩ : Sec) ∧
+        (w0 / 4 < 3 * inp.nBlocks → inv = (o (w0 / 4) != o y)) := by
+  intro d hd
+  obtain ⟨c, w0, k, he, hcm, rfl⟩ := T_C04_wire_provenance_manager inp st h w d hd
+  obtain ⟨y, c0, hc0, hid, hr, hn⟩ := T_C04_descends inp st h (w0 / 4) c hcm
+  have hsec : secOn inp w0 c = (⟨c0.ratio, c0.count, inp.ev c0.id c.inv w0⟩ : Sec) := by
+    unfold secOn; rw [hid, hr, hn]
+  have hu : userChopped inp y = true := by
+    unfold userChopped
+    cases hl : inp.chops y with
+    | nil => rw [hl] at hc0; cases hc0
+    | cons a l => rfl
+  refine ⟨y, hu, c0, hc0, ?_, ?_, w0, c.inv, k, he, by rw [hsec], ?_⟩
+  · rw [(flipN_count k _).1]; exact hn
+  · rw [(flipN_count k _).2]; exact hr
+  · intro hb
+    have hp := T_C04_parity inp st h o src hc hs (w0 / 4) hb c hcm
+    rw [hp, hid, (hs y c0 hc0).2]
+
+/-- gradings are copied only along the family: every section of every wire `w` is a user chop `c0` of a direction `y` from
+    which the direction of a wire `w0` *on the same geometric edge as `w`* (`SameEdge`) is reached by hops between directions
+    that share an edge (`AxLink`: each hop is one `Axis.copy_grading` from a neighbour) — parallel, edge-connected
+    directions only.  (`SameEdge` and `AxLink` are the generating steps `shared` / `axis` of the family relation `Fam` of
+    C01; the conversion into `Fam` itself needs the wires of the chains to be in range, which the provenance predicates do
+    not record — left open.) -/
+theorem T_C04_never_invented_family (inp : Inp) (st : St) (h : run inp = .ok st) (w : Nat) :
+    ∀ d ∈ specOf st w, ∃ y, userChopped inp y = true ∧ ∃ c0 ∈ inp.chops y,
+      d.count = c0.count ∧ d.ratio = c0.ratio ∧
+      ∃ (w0 : Nat), SameEdge inp w w0 ∧ AxLink inp y (w0 / 4) := by
+  intro d hd
+  obtain ⟨c, w0, k, he, hcm, rfl⟩ := T_C04_wire_provenance_manager inp st h w d hd
+  obtain ⟨y, c0, hc0, _, hr, hn, hl⟩ := run_descF inp st h (w0 / 4) c hcm
+  have hu : userChopped inp y = true := by
+    unfold userChopped
+    cases hl' : inp.chops y with
+    | nil => rw [hl'] at hc0; cases hc0
+    | cons a l => rfl
+  refine ⟨y, hu, c0, hc0, ?_, ?_, w0, he, hl⟩
+  · rw [(flipN_count k _).1]; exact hn
+  · rw [(flipN_count k _).2]; exact hr
+
 end CBV.Prop
 
 namespace CBV.Prop.Examples
@@ -587,5 +641,13 @@ example : C2cResolved twoBoxesC :=
     section, with the 5 cells of the chop the user placed on direction 1 (block 0, y) -/
 example : userChopped (twoBoxes 5 0) 4 = false ∧ userChopped (twoBoxes 5 0) 1 = true ∧
     ((twoBoxes 5 0).chops 1).map (·.count) = [5] := by decide +kernel
+
+/-! round 6g: the hypotheses of `T_C04_never_invented_oriented` are those of `T_C04_parity`, shown above to hold on the two
+boxes (`WireCoh (twoBoxes 5 0) (fun _ => false)`, `Src (twoBoxes 5 0) (fun id => id)`); wire 16 is in range: -/
+example : (16 : Nat) / 4 < 3 * (twoBoxes 5 0).nBlocks := by decide
+
+/-- `T_C04_never_invented_family` on the two boxes: direction 4 (block 1, y) is reached from the user-chopped direction 1
+    (block 0, y) by one hop (they share wire pair 5 / 16) -/
+example : AxLink (twoBoxes 5 0) 1 4 := .hop (.refl 1) (by decide +kernel)
 
 end CBV.Prop.Examples
